@@ -12,7 +12,7 @@
 (* well-typed at nat or nat => nat) and is not vacuous (every shape class is inhabited).                  *)
 EXTENDS HolGen, C10_Laws, SequencesExt, Json, IOUtils
 
-CONSTANTS Depth, MaxSize, CoreSize
+CONSTANTS Depth, MaxSize, CoreSize, NestSize
 
 NN == FunT(NatT, NatT)
 vx == <<"var","x",NatT>>   vy == <<"var","y",NatT>>   vf == <<"var","f",NN>>
@@ -51,7 +51,14 @@ BetaAbs == { App(<<"abs", NatT, Lam(b)>>, a) : b \in { <<"bound", 1>>, B0, Plus(
 \* eta-expansions  %z. l z  of closed function terms l (contracting gives l: an abstraction or not)
 FunTerms == { t \in GenT(NN, Depth) : TRUE } \cup { Lam(Plus(b, Z)) : b \in CoreB } \cup { App(<<"abs", NatT, Lam(b)>>, vx) : b \in { <<"bound", 1>>, Plus(<<"bound", 1>>, B0) } }
 EtaX == { Lam(App(l, B0)) : l \in FunTerms }
-Universe == Base \cup Redex1 \cup UnderLam \cup Cond \cup BetaAbs \cup EtaX
+\* NESTED BINDERS: %a:T1. %b:T2. body  with T1, T2 nat or nat => nat (same or different types), every body of size <= NestSize over the
+\* signature and both bound variables that MENTIONS THE OUTER variable; among them bodies with a beta-redex / a rule redex inside.
+\* The replay names the binders (all the same name / all different / the same name as a free variable), so that an inner binder
+\* carrying the suggested name of an enclosing one is a systematic dimension for every conversion that opens binders.
+NestBodies(T1, T2) == { b \in GenS(NatT, NestSize, <<T2, T1>>) : HasBound(b, 1) }
+Nested == UNION { { <<"abs", T1, <<"abs", T2, b>> >> : b \in NestBodies(T1, T2) } : T1 \in {NatT, NN}, T2 \in {NatT, NN} }
+NestedApp == { App(t, vx) : t \in { u \in Nested : u[2] = NatT /\ Size(u) <= NestSize + 1 } }
+Universe == Base \cup Redex1 \cup UnderLam \cup Cond \cup BetaAbs \cup EtaX \cup Nested \cup NestedApp
 
 \* ---- reference notions used for the vacuity guards
 RECURSIVE HasRule(_), HasRuleUnderAbs(_)
@@ -60,6 +67,7 @@ HasRule(t) == IsRule(t) \/ (t[1] = "comb" /\ (HasRule(t[2]) \/ HasRule(t[3]))) \
 HasRuleUnderAbs(t) == (t[1] = "abs" /\ HasRule(t[3])) \/ (t[1] = "comb" /\ (HasRuleUnderAbs(t[2]) \/ HasRuleUnderAbs(t[3])))
 EtaTop(t) == t[1] = "abs" /\ t[3][1] = "comb" /\ t[3][3] = B0 /\ ~HasBound(t[3][2], 0)
 BetaTop(t) == IsRedex(t)
+NestedMust == { u \in Nested : HasRedex(u) }
 
 VARIABLES t, emitted
 vars == <<t, emitted>>
@@ -68,15 +76,17 @@ Init == t \in Universe /\ emitted = FALSE
 First == CHOOSE u \in Universe : TRUE
 Emit == /\ ~emitted /\ t = First /\ emitted' = TRUE /\ UNCHANGED t
         /\ LET us == SetToSeq(Universe) IN
-           /\ ndJsonSerialize(IOEnv.VECTOR_FILE, [i \in 1..Len(us) |-> [t |-> us[i], ty |-> TypeOf(us[i], <<>>), must |-> us[i] \in Cond \cup BetaAbs]])
+           /\ ndJsonSerialize(IOEnv.VECTOR_FILE, [i \in 1..Len(us) |-> [t |-> us[i], ty |-> TypeOf(us[i], <<>>), must |-> us[i] \in Cond \cup BetaAbs \cup NestedMust]])
            /\ PrintT(<<"terms", Len(us), "base", Cardinality(Base), "rule redex", Cardinality({ u \in Universe : HasRule(u) }),
                        "rule under binder", Cardinality({ u \in Universe : HasRuleUnderAbs(u) }),
                        "eta at top", Cardinality({ u \in Universe : EtaTop(u) }), "beta at top", Cardinality({ u \in Universe : BetaTop(u) }),
-                       "beta-normal", Cardinality({ u \in Universe : ~HasRedex(u) })>>)
+                       "beta-normal", Cardinality({ u \in Universe : ~HasRedex(u) }),
+                       "nested binders", Cardinality(Nested), "nested with a redex inside", Cardinality(NestedMust)>>)
 Next == Emit
 Spec == Init /\ [][Next]_vars
 
-TermOK == WellTyped(t) /\ ~IsOpen(t) /\ TypeOf(t, <<>>) \in TopTypes
+NestTypes == { FunT(T1, FunT(T2, NatT)) : T1 \in {NatT, NN}, T2 \in {NatT, NN} }
+TermOK == WellTyped(t) /\ ~IsOpen(t) /\ TypeOf(t, <<>>) \in TopTypes \cup NestTypes \cup { FunT(NN, NatT) }
 \* the universe inhabits every shape class the combinators distinguish (a constant: evaluated in one state)
 NonVacuous == t = First =>
               /\ \E u \in Universe : EtaTop(u) /\ BetaNorm(EtaNorm(u))[1] = "abs"          \* abstraction -> abstraction at the top
@@ -84,4 +94,7 @@ NonVacuous == t = First =>
               /\ \E u \in Universe : BetaTop(u) /\ BetaConv(u)[1] = "abs"                     \* application -> abstraction
               /\ \E u \in Universe : HasRuleUnderAbs(u)
               /\ \E u \in Universe : u[1] = "abs" /\ HasBound(u[3], 0) /\ HasRule(u[3])
+              \* an inner binder whose body mentions the outer variable and still contains a beta-redex; binders of different types
+              /\ \E u \in Nested : u[2] = u[3][2] /\ HasRedex(u[3][3])
+              /\ \E u \in Nested : u[2] # u[3][2] /\ HasRedex(u[3][3])
 =============================================================================
